@@ -16,7 +16,25 @@ pub fn resolve_in(paths: &dyn Fn(&str) -> bool, current_file: &str, spec: &str) 
     // a tsconfig `paths` alias of the virtual project: "@app/x" is "x" under the project root
     let aliased = spec.strip_prefix("@app/");
     if aliased.is_none() && !(spec.starts_with("./") || spec.starts_with("../") || spec == "." || spec == "..") {
-        return None;
+        // a package name: node_modules of the importer's directory, then of every parent directory
+        // (two importers in different directories may get different copies of one package)
+        if spec.starts_with('/') || spec.starts_with('#') || spec.is_empty() {
+            return None;
+        }
+        let mut dir: Vec<&str> = current_file.split('/').collect();
+        dir.pop();
+        loop {
+            let base = if dir.is_empty() { format!("node_modules/{spec}") } else { format!("{}/node_modules/{spec}", dir.join("/")) };
+            for c in [format!("{base}.ts"), format!("{base}/index.ts"), format!("{base}/index.d.ts")] {
+                if paths(&c) {
+                    return Some(c);
+                }
+            }
+            if dir.is_empty() {
+                return None;
+            }
+            dir.pop();
+        }
     }
     let mut parts: Vec<&str> = if aliased.is_some() { vec![] } else { current_file.split('/').collect() };
     let spec = aliased.unwrap_or(spec);
